@@ -132,6 +132,9 @@ inductive Event
   | dual (binary : Bool) (v : VecOut)
   | primal (binary : Bool) (v : VecOut)
   | objno (binary : Bool) (objno : Bytes) (code : Bytes)  -- text: strtod tokens; binary: 4 raw bytes each
+  /-- ghost (no handler callback): the reader evaluated `(int)strtod(text)` and then stopped without
+  delivering it (`objno <x>` with no second number); undefined behaviour if the value is out of range -/
+  | cast (text : Bytes)
   /-- `namelen`, `tablen` are the header fields (ghost: not observable by the handler) -/
   | suffix (binary : Bool) (kind : Int) (namelen tablen : Int) (name table : Bytes) (v : VecOut)
   deriving DecidableEq, Repr
@@ -490,7 +493,7 @@ def textTail (fx : Bool) (pol : Policy) (inp : Bytes) : Result :=
     if k1 = 0 then err .badLine else
     let s2 := s1.drop k1
     let k2 := strtodLen s2
-    if k2 = 0 then done else
+    if k2 = 0 then Result.cons (.cast (s1.take k1)) done else
     Result.cons (.objno false (s1.take k1) (s2.take k2)) (gsuf fx (inp.length + 1) pol bufInit inp)
 
 /-- binary format after the closing record length of the primal vector -/
